@@ -11,6 +11,7 @@ All theorems are about the executable model `NV.C08.exec` / `runCmds` (NV/C08/Mo
 `sc : Scripts`, ALL fuels and ALL command lists.
 -/
 import NV.C08.Safe2
+import NV.C08.Refine
 import NV.C08.Tie
 
 namespace NV.C08
@@ -426,6 +427,11 @@ example : WorldInv Core.init ∧ Core.init.n = 2 ∧ (Core.init.objs 1).name = {
   · rw [init_eq]; simp [allocCore, Core.empty]
   · apply (lookup_unique_live init_inv _ 1).1.mpr
     rw [init_eq]; simp [allocCore, Core.empty]
+
+/-- the refinement theorems of NV/C08/Refine.lean are not vacuous: in the initial state the table, read as a map,
+    sends the master's name to object 1 -/
+example : absMap Core.init { base := .master, num := none } = some 1 :=
+  (absMap_spec init_inv _ 1).mpr (by rw [init_eq]; simp [allocCore, Core.empty])
 
 /-- a state with a destructed object: the master-less world after destructing the simul_efun object satisfies the
     invariant, and `destructed_never_visible` applies to object 0 -/
